@@ -381,13 +381,22 @@ impl Monitor for C04 {
 pub struct C15 {
     /// also sweep the panicking `play` (each illegal move costs an unwind)
     pub with_play: bool,
+    /// 1: all 28,672 move values on every state. n > 1: all of them on every state whose exact key
+    /// falls into residue class 0 mod n (a fixed function of the position), and on the other states
+    /// all 448 values from every origin square that holds a piece of the mover
+    pub full_sweep_mod: u64,
 }
 impl Monitor for C15 {
     fn state(&self, v: &View, t: &mut Tally, s: &Sink) {
         let legal = move_set(v.ref_moves);
+        let full = self.full_sweep_mod <= 1 || ((v.key.0[0] ^ v.key.0[1].rotate_left(17) ^ v.key.0[2].rotate_left(31) ^ v.key.0[3].rotate_left(47) ^ v.key.0[4]).wrapping_mul(0x9E37_79B9_7F4A_7C15) >> 32) % self.full_sweep_mod == 0;
+        t.hit(if full { "sweep: all 28,672 move values" } else { "sweep: all values from the mover's origin squares" });
         ALL_MOVES.with(|all| {
             let mut work = v.board.clone();
             for m in all.iter() {
+                if !full && !matches!(v.pos.sq[m.from as usize], Some((_, c)) if c == v.pos.stm) {
+                    continue;
+                }
                 let want_ok = legal[move_index(m)];
                 let r = guarded(|| work.try_play(*m));
                 t.validated += 1;
@@ -593,7 +602,7 @@ fn monitor_for(prop: &str, thorough: bool) -> Box<dyn Monitor> {
         "C03" => Box::new(C03),
         "C04" => Box::new(C04),
         "C14" => Box::new(C14),
-        "C15" => Box::new(C15 { with_play: true }),
+        "C15" => Box::new(C15 { with_play: true, full_sweep_mod: 1 }),
         "C16" => Box::new(C16 { thorough }),
         _ => unreachable!(),
     }
@@ -667,7 +676,9 @@ pub fn run(run: &mut Run) -> Result<(), String> {
                 plan.raws.push((Box::new(Caged { inner: Box::new(CheckPin { kings: vec![15, 55] }), variants: 3, mover: true }), b(0, 0)));
                 plan.raws.push((Box::new(CastlePlay { visitors: vec![Kind::R] }), b(if prop == "C01" { 3 } else { 2 }, 0)));
                 plan.raws.push((Box::new(RayFill { kings: vec![4, 27], max: 3 }), b(0, 0)));
+                plan.raws.push((Box::new(EpDiscover), b(d1, 0)));
             } else {
+                plan.raws.push((Box::new(EpDiscover), b(d1, 0)));
                 plan.raws.push((Box::new(RayFill { kings: vec![4, 27, 0, 63, 36, 15], max: 3 }), b(d1, 0)));
                 plan.raws.push((Box::new(CastlePlay { visitors: vec![Kind::R, Kind::Q, Kind::N] }), b(if prop == "C01" { 3 } else { 2 }, 0)));
                 plan.raws.push((Box::new(Caged { inner: Box::new(CheckPin { kings: vec![15, 55, 12, 52, 20, 44, 0, 63, 27] }), variants: 3, mover: true }), b(0, 0)));
@@ -720,7 +731,9 @@ pub fn run(run: &mut Run) -> Result<(), String> {
                 plan.raws.push((Box::new(Battery { enemy_kings: vec![35, 28, 0, 63, 4, 59], stride: 1 }), b(1, 0)));
                 plan.raws.push((Box::new(CastlePlay { visitors: vec![Kind::R] }), b(3, 0)));
                 plan.raws.push((Box::new(RayFill { kings: vec![27], max: 3 }), b(1, 0)));
+                plan.raws.push((Box::new(EpDiscover), b(1, 0)));
             } else {
+                plan.raws.push((Box::new(EpDiscover), b(1, 1)));
                 plan.raws.push((Box::new(RayFill { kings: vec![4, 27, 0, 63], max: 3 }), b(1, 1)));
                 plan.raws.push((Box::new(CastlePlay { visitors: vec![Kind::R, Kind::Q, Kind::N] }), b(3, 1)));
                 plan.raws.push((Box::new(Battery { enemy_kings: (0..64).collect(), stride: 1 }), b(1, 1)));
@@ -800,7 +813,7 @@ pub fn run(run: &mut Run) -> Result<(), String> {
                 plan.raws.push((Box::new(CheckPin { kings: vec![27] }), b(0, 0)));
                 plan.raws.push((Box::new(EpExposure), b(0, 0)));
                 plan.raws.push((Box::new(PinUniverse { kings: vec![27], far_side: false }), b(0, 0)));
-                plan.raws.push((Box::new(EpCheck { second: vec![Kind::Q], files: vec![0, 3, 6] }), b(0, 0)));
+                plan.raws.push((Box::new(EpCheck { second: vec![Kind::Q], files: vec![0, 3] }), b(0, 0)));
                 plan.lines = Some(b(1, 0));
             } else {
                 plan.raws.push((Box::new(EpCheck { second: vec![Kind::B, Kind::R, Kind::Q], files: (0..8).collect() }), b(0, 0)));
@@ -822,7 +835,7 @@ pub fn run(run: &mut Run) -> Result<(), String> {
             }
             plan.walk = Some(if q { (40, 40, 4, 7, b(0, 0)) } else { (240, 60, 2, 7, b(0, 0)) });
             run.tag = " [try_play]".into();
-            run_plan(run, &plan, &C15 { with_play: false }, &NoCand);
+            run_plan(run, &plan, &C15 { with_play: false, full_sweep_mod: if q { 3 } else { 1 } }, &NoCand);
             // plan B: the panicking `play` over the same 28,672 values on a small family (each
             // illegal move costs an unwind)
             plan = Plan::empty();
@@ -852,7 +865,7 @@ pub fn run(run: &mut Run) -> Result<(), String> {
         "C03" => "every visited state (histories include null moves): checkers()/pinned() vs literal definitions, equality with freshly parsed / freshly built board, equality of merged histories".into(),
         "C04" => "every visited state x all 28,672 move values: is_legal vs membership in the generated set".into(),
         "C14" => "every visited state: null_move refused iff in check, result compared with the reference model and with freshly constructed boards".into(),
-        "C15" => "every visited state x all 28,672 move values: try_play (and play) vs reference legality, result equality, atomicity on failure".into(),
+        "C15" => if q { "every visited state x move values: try_play (and play) vs reference legality, result equality, atomicity on failure. Quick tier: all 28,672 values on the states whose exact key falls into one fixed residue class of three, all 448 values from every origin square holding a piece of the mover on the others (see outcome classes); thorough: all 28,672 on every state".into() } else { "every visited state x all 28,672 move values: try_play (and play) vs reference legality, result equality, atomicity on failure".into() },
         "C16" => "every visited state x mask menu x every abort point".into(),
         _ => String::new(),
     };
